@@ -214,6 +214,23 @@ def table_d_sample(tier, sd, nquick=25):
                 else:
                     ids.append(m)
             return ids
+        def length(flat, i, end):
+            """number of data fields when every delayed replication takes one repetition"""
+            total = 0
+            while i < end:
+                d = flat[i]
+                if d.startswith('1'):
+                    x, y = int(d[1:3]), int(d[3:])
+                    if y == 0:
+                        total += 1 + length(flat, i + 2, min(end, i + 2 + x))
+                        i += 2 + x
+                    else:
+                        total += y * length(flat, i + 1, min(end, i + 1 + x))
+                        i += 1 + x
+                else:
+                    total += 1
+                    i += 1
+            return total
         keys = sorted(td)
         rnd.shuffle(keys)
         picked = []
@@ -222,7 +239,9 @@ def table_d_sample(tier, sd, nquick=25):
             ndel = sum(1 for d in flat if d.startswith('1') and d.endswith('000'))
             ok = all((d in tb or not d.startswith('0')) for d in flat) and not any(d.startswith('3') for d in flat)
             ops = [d for d in flat if d.startswith('2')]
-            if ok and ndel <= 3 and len(flat) <= 60 and all(d[:3] in ('201', '202', '204', '207', '208') for d in ops) \
+            # (fixed replications with large counts make behaviours of 10 000 and more fields - 340001, 340009: states grow with
+            # the output sequence, one such template does not finish in an hour)
+            if ok and ndel <= 3 and len(flat) <= 60 and length(flat, 0, len(flat)) <= 400 and all(d[:3] in ('201', '202', '204', '207', '208') for d in ops) \
                     and not any(d in ('031011', '031012') for d in flat):
                 picked.append([int(k)])
             if len(picked) >= (nquick if tier == 'quick' else 60):
